@@ -16,6 +16,8 @@
                        int / oid also long contents up to INT_LONG / OID_LONG octets
                        (two A14 octets + filler: width and arc-size boundaries)
    time                GeneralizedTime: field menus (TIMEMENU) + single-octet mutations
+   utc                 UTCTime: two-digit years on both sides of the 1950-2049 window and of
+                       Go's own 1969-2068 pivot x seconds present / absent x zone forms
    len                 length octets behind each identifier octet of LEN_IDS: all first octets; the
                        following octets full alphabet while the header is at most
                        LEN_FULL octets long, A14 up to LEN_MAX; every prefix is
@@ -85,6 +87,16 @@ TimeField(stage) ==     \* the strings that may be appended after `stage` fields
     [] stage = 5 -> {Two(x) : x \in IF Q THEN {59, 60} ELSE {0, 59, 60}}
     [] stage = 6 -> IF Q THEN QuickZones ELSE Zones
     [] OTHER -> {}
+\* UTCTime: YY MM DD hh mm [ss] zone
+UTField(stage) ==
+  CASE stage = 0 -> {Two(y) : y \in {0, 49, 50, 51, 52, 68, 69, 99}}
+    [] stage = 1 -> {Two(m) : m \in IF Q THEN {1, 2, 13} ELSE {0, 1, 2, 12, 13}}
+    [] stage = 2 -> {Two(d) : d \in IF Q THEN {1, 29, 31} ELSE {0, 1, 28, 29, 30, 31, 32}}
+    [] stage = 3 -> {Two(h) : h \in IF Q THEN {0, 23} ELSE {0, 23, 24}}
+    [] stage = 4 -> {Two(n) : n \in IF Q THEN {0, 59} ELSE {0, 59, 60}}
+    [] stage = 5 -> {<<>>} \cup {Two(x) : x \in IF Q THEN {0, 59} ELSE {0, 59, 60}}     \* seconds absent / present
+    [] stage = 6 -> IF Q THEN QuickZones ELSE Zones
+    [] OTHER -> {}
 TimeBase == Four(2024) \o Two(2) \o Two(29) \o Two(12) \o Two(34) \o Two(56) \o <<90>>
 TimeMutants == {[TimeBase EXCEPT ![i] = r] : i \in 1..15, r \in {47, 58, 32, 0, 255, 65, 43}}
 
@@ -126,6 +138,8 @@ Next ==
      \/ /\ kind = "time" /\ aux < 7 /\ \E f \in TimeField(aux) : c' = c \o f
         /\ aux' = aux + 1
      \/ /\ kind = "time" /\ aux = 0 /\ c' \in TimeMutants /\ aux' = 8
+     \/ /\ kind = "utc"  /\ aux < 7 /\ \E f \in UTField(aux) : c' = c \o f
+        /\ aux' = aux + 1
      \/ /\ kind = "len"  /\ \E b \in LenNext : c' = Append(c, b)
         /\ UNCHANGED aux
      \/ /\ kind = "tag"  /\ \E b \in TagNext : c' = Append(c, b)
@@ -180,6 +194,12 @@ TimeCase(tr) ==
       j == TimeJudgeF(Framed(s, 24), g)
   IN [k |-> "time", b |-> s, n |-> j.n, why |-> j.why, v |-> j.v, t |-> g.t]
 
+UTimeCase(tr) ==
+  LET s == TLV(23, c) \o tr
+      u == UTInfo(c)
+      j == UTimeJudgeF(Framed(s, 23), u)
+  IN [k |-> "utc", b |-> s, n |-> j.n, why |-> j.why, v |-> j.v, t |-> u.t, nore |-> u.nore]
+
 \* lenient (BER) value of complete length octets when < 2^17, else -1
 Lenient(l) == IF l[1] < 128 THEN l[1]
               ELSE LET k == l[1] - 128
@@ -212,6 +232,7 @@ Emit ==
     [] kind = "oid"  -> \A tr \in Trails : Out(OidCase(tr))
     [] kind = "bits" -> \A tr \in Trails : Out(BitsCase(tr))
     [] kind = "time" -> aux \in {7, 8} => \A tr \in Trails : Out(TimeCase(tr))
+    [] kind = "utc"  -> aux = 7 => Out(UTimeCase(<<>>))
     [] kind = "len"  -> c # <<>> => \A f \in Fills(c) : Out(HdrCase(<<aux>> \o c, f))
     [] kind = "tag"  -> c # <<>> => Out(HdrCase(c \o <<0>>, 0)) /\ Out(HdrCase(c \o <<2>>, 2))
                                     /\ Out(HdrCase(c \o <<2>>, 1))
@@ -223,6 +244,7 @@ SpecCanon ==
     [] kind = "oid"  -> OidRoundTrip(c)
     [] kind = "bits" -> BitsRoundTrip(c)
     [] kind = "time" -> aux \in {7, 8} => TimeRoundTrip(c)
+    [] kind = "utc"  -> aux = 7 => UTRoundTrip(c)
     [] kind = "len"  -> c # <<>> => HdrRoundTrip(<<aux>> \o c)
     [] kind = "tag"  -> c # <<>> => HdrRoundTrip(c \o <<2>>)
 
